@@ -29,6 +29,8 @@ def stmt_text(k: str, i: int, rng: random.Random, fancy: bool) -> str:
         return "@assert" + sp() + "true"
     if k == "print":
         return "@print" + sp() + str(i)
+    if k == "mlprint":      # the string literal spans two physical lines
+        return "@print" + sp() + str(i) + " + {'a" + rng.choice(["\n", "\r\n"]) + "b'}.count - 1"
     if k == "marker":
         return rng.choice(["---", "----", "-----------"]) if fancy else "---"
     if k == "offq":
@@ -42,6 +44,14 @@ def stmt_text(k: str, i: int, rng: random.Random, fancy: bool) -> str:
     if k == "syntax":
         return rng.choice(SYNTAX_FORMS)
     raise ValueError(k)
+
+def phys_starts(lines):
+    """First physical line (1-based) of every abstract line."""
+    starts, p = [], 1
+    for l in lines:
+        starts.append(p)
+        p += 2 if l["k"] == "mlprint" else 1
+    return starts
 
 def render(lines, seed: int, variant: int) -> str:
     """variant 0: canonical (LF, single blanks); 1: CRLF + runs of blanks/tabs + trailing blanks; 2: LF fancy."""
@@ -90,15 +100,16 @@ def _doc_ids(doc: str):
             ids.append(("?", ln))
     return ids
 
-def project(status, res, prints, file_path: str):
-    """Projection of the real result to the abstract form."""
+def project(status, res, prints, file_path: str, to_abs=lambda x: x):
+    """Projection of the real result to the abstract form (physical line numbers -> abstract line indices)."""
     import pydsdl
     pr = []
     for (path, line, text) in prints:
-        pr.append(line if (text.strip() == str(line) and path == file_path) else ("?", path, line, text))
+        a = to_abs(line)
+        pr.append(a if (text.strip() == str(a) and path == file_path) else ("?", path, line, text))
     if status == "err":
         info = dsdlio.err_info(res)
-        return {"ok": False, "line": info["line"] or 0, "prints": pr, "ide": info["ide"], "path": info["path"],
+        return {"ok": False, "line": to_abs(info["line"]) if info["line"] else 0, "prints": pr, "ide": info["ide"], "path": info["path"],
                 "cls": info["cls"], "text": info["text"]}
     if len(res) != 1:
         return {"ok": "?", "n": len(res)}
@@ -195,7 +206,7 @@ def expected_log(out):
             log.append(("finalize", bool(e["dep"]), tuple((x["nf"], x["nc"], bool(x["union"]), x["mode"]) for x in e["sections"])))
     return log
 
-def project_events(events):
+def project_events(events, to_abs=lambda x: x):
     """Hook events H1 -> the abstract steps of Statements.tla (no-op flushes omitted)."""
     log, problems = [], []
     j = 0
@@ -212,7 +223,7 @@ def project_events(events):
                 else:
                     j += 1
                     if nxt["pending"]:
-                        log.append(("commit", e["attr_line"], tuple(_doc_ids(nxt["doc"]))))
+                        log.append(("commit", to_abs(e["attr_line"]), tuple(_doc_ids(nxt["doc"]))))
                         if nxt["doc"] != e["comment"]:
                             problems.append(("doc handed to the builder differs from the parser's comment", e))
                     elif e["comment"] != "":
@@ -221,7 +232,7 @@ def project_events(events):
             if e["pending"]:      # a commit that did not come from a parser flush (_queue_attribute flushing a predecessor)
                 problems.append(("an attribute was committed outside a parser flush", e))
         elif e["ev"] == "stmt":
-            log.append(("stmt", e["kind"], e["line"]))
+            log.append(("stmt", e["kind"], to_abs(e["line"])))
         elif e["ev"] == "finalize":
             if e["pending"]:
                 problems.append(("an attribute is still pending at finalization", e))
@@ -238,6 +249,9 @@ def run_case(lines, out, seed: int, variants, roundtrip: bool):
     exp = expected(out)
     bad = []
     structures = []
+    starts = phys_starts(lines)
+    def to_abs(pl):
+        return starts.index(pl) + 1 if pl in starts else ("?physical line", pl)
     for v in variants:
         text = render(lines, seed, v)
         with dsdlio.Tree({"ns/A.1.0.dsdl": text}, "st") as tr:
@@ -246,11 +260,11 @@ def run_case(lines, out, seed: int, variants, roundtrip: bool):
             _verif_trace.drain()
             status, res, prints = dsdlio.read_ns(tr.path("ns"))
             events = _verif_trace.drain()
-            got = project(status, res, prints, fp)
+            got = project(status, res, prints, fp, to_abs)
             d = compare(exp, got, fp)
             if not d:
                 # Binding B: the recorded steps are the ones the specification prescribes
-                glog, problems = project_events(events)
+                glog, problems = project_events(events, to_abs)
                 elog = expected_log(out)
                 if glog != elog:
                     n = next((i for i, (a, b) in enumerate(zip(glog, elog)) if a != b), min(len(glog), len(elog)))
